@@ -356,6 +356,12 @@ func (np *Pool) UnmarshalMsg(b []byte) ([]byte, error) {
 		return nil, err
 	}
 
+	// the decoded type and node map have to end up in the pool itself (the JSON decoder above does
+	// this too): without them a pool read back from msgpack is empty (Size() == 0, HasNode false,
+	// wrong Type) and re-encodes to an empty pool
+	np.Type = d.Type
+	np.NodesMap = d.NodesMap
+
 	np.Nodes = make([]*Node, 0, len(d.NodesMap))
 	for k := range d.NodesMap {
 		n := d.NodesMap[k]
